@@ -94,7 +94,19 @@ func (a *agg) add(c *Case, res *childResult) {
 	a.evals++
 	a.wallChild += res.wall
 	if c.Label != "" {
-		a.labels[strings.SplitN(c.Label, ":", 2)[0]]++
+		kind := c.Label
+		if i := strings.IndexAny(kind, "#|:"); i > 0 {
+			kind = kind[:i]
+		}
+		if i := strings.IndexByte(kind, '@'); i > 0 {
+			rest := kind[i+1:]
+			if j := strings.IndexByte(rest, ','); j >= 0 {
+				kind = kind[:i] + rest[j:]
+			} else {
+				kind = kind[:i]
+			}
+		}
+		a.labels[strings.TrimSpace(kind)]++
 	}
 	rec := res.rec
 	if rec == nil {
